@@ -2,6 +2,8 @@
 // of a pool that contains empty packets, zero-length payloads and equal-looking objects).
 #pragma once
 #include <asam_cmp/decoder.h>
+
+#include <limits>
 #include <asam_cmp/tecmp_payload.h>
 
 #include "engines/obj_c11.h"
@@ -592,6 +594,61 @@ static inline void crossClassCases(W& w, const std::string& only = "")
         }
 }
 
+// Equality between objects whose STATIC type is a concrete payload class (an overload for that class, if there is one, is chosen
+// here and nowhere else): reflexive, a copy equals its source, != is the negation - also for payloads whose float fields hold
+// NaN, infinities or negative zero (equality of payloads is equality of their bytes)
+template <class T, class Mk>
+static void typedEquality(W& w, const std::string& name, Mk mk)
+{
+    auto desc = [&] { return "k=typedeq;cls=" + name; };
+    if (!w.begin_case(desc))
+        return;
+    T a = mk();
+    T b(a);
+    T c = mk();
+    T d;
+    d = a;
+    w.add(mc::C_TRANS, 6);
+    w.add(mc::C_TRACES, 1);
+    if (!(a == a))
+        w.fail("equality:not-reflexive:" + name, "x == x is false for an object compared through its own class");
+    if (!(a == b) || !(b == a))
+        w.fail("equality:equal-objects-compare-unequal:" + name, "a copy-constructed object compares unequal to its source");
+    if (!(a == c) || !(a == d))
+        w.fail("equality:equal-objects-compare-unequal:" + name, "a separately built / copy-assigned object with the same bytes compares unequal");
+    const A::Payload& pa = a;
+    const A::Payload& pb = b;
+    if (!(pa == pb))
+        w.fail("equality:equal-objects-compare-unequal:Payload", "the same two " + name + " objects compared through the base class");
+    w.outcome(mc::mix(mc::fnv_s(name), 3));
+}
+
+static inline void typedEqualityCases(W& w)
+{
+    const float specials[] = {0.0f, -0.0f, 1.5f, std::numeric_limits<float>::quiet_NaN(), std::numeric_limits<float>::infinity(), -std::numeric_limits<float>::infinity(),
+                              std::numeric_limits<float>::denorm_min()};
+    int k = 0;
+    for (float f : specials)
+        for (int field = 0; field < 3; ++field)
+            typedEquality<A::AnalogPayload>(w, ofmt("AnalogPayload(special float %d in field %d)", k++, field), [f, field] {
+                A::AnalogPayload p;
+                Bytes d = pat(8, 6);
+                p.setData(d.data(), 8);
+                if (field == 0) p.setSampleInterval(f);
+                if (field == 1) p.setSampleOffset(f);
+                if (field == 2) p.setSampleScalar(f);
+                return p;
+            });
+    typedEquality<A::CanPayload>(w, "CanPayload", [] { A::CanPayload c; Bytes d = pat(8, 2); c.setId(0x123); c.setData(d.data(), 8); return c; });
+    typedEquality<A::CanFdPayload>(w, "CanFdPayload", [] { A::CanFdPayload c; Bytes d = pat(12, 3); c.setId(0x55); c.setCrc(0x1ABCDE); c.setData(d.data(), 12); return c; });
+    typedEquality<A::LinPayload>(w, "LinPayload", [] { A::LinPayload c; Bytes d = pat(8, 4); c.setLinId(0x21); c.setData(d.data(), 8); return c; });
+    typedEquality<A::EthernetPayload>(w, "EthernetPayload", [] { A::EthernetPayload c; Bytes d = pat(18, 5); c.setData(d.data(), 18); return c; });
+    typedEquality<A::CaptureModulePayload>(w, "CaptureModulePayload", [] { A::CaptureModulePayload c; c.setUptime(5); c.setData("dev", "", "hw ", " sw", {1, 2, 3}); return c; });
+    typedEquality<A::InterfacePayload>(w, "InterfacePayload", [] { A::InterfacePayload c; c.setInterfaceId(9); uint8_t s2[3] = {1, 2, 3}; c.setData(s2, 3, nullptr, 0); return c; });
+    typedEquality<A::CanPayload>(w, "default CanPayload", [] { return A::CanPayload(); });
+    typedEquality<A::AnalogPayload>(w, "default AnalogPayload", [] { return A::AnalogPayload(); });
+}
+
 static inline std::vector<std::pair<std::string, std::function<TECMP::Payload()>>> tecmpPayloads()
 {
     using PL = TECMP::Payload;
@@ -636,6 +693,7 @@ static int runC14(mc::Run& run, const mc::Options& opt)
             histCase(w, P, sub, n("t"), ops);
         }
         else if (kv["k"] == "xcls") crossClassCases(w, cs);
+        else if (kv["k"] == "typedeq") typedEqualityCases(w);
         else if (kv["k"] == "abort") abortedCopy(w, P, n("s"), n("t"), atoi(kv["n"].c_str()), kv["op"] == "construct");
         else if (kv["k"] == "pl")
         {
@@ -775,6 +833,7 @@ static int runC14(mc::Run& run, const mc::Options& opt)
     });
     run.round("objects of 10 concrete payload classes / states: all ordered pairs assigned through the base class, set into a packet holding the other, compared", 1,
               [&](W& w, uint64_t) { crossClassCases(w); });
+    run.round("equality through the concrete payload classes (incl. analog payloads whose float fields hold NaN / infinities / -0)", 1, [&](W& w, uint64_t) { typedEqualityCases(w); });
     run.round("Payload and TECMP::Payload: all ordered pairs x value operations + equality", 2, [&](W& w, uint64_t o) {
         if (o == 0)
             payloadCases<ASAM::CMP::Payload>(w, "Payload", asamPayloads());
